@@ -186,7 +186,7 @@ def static_manifests(ctx):
             for rep in mpd.representations():
                 st = rep['template']
                 rid = rep['rep'].get('id')
-                if st is not None and rep['timeline'] is not None:
+                if st is not None and rep['timeline'] is not None and st.get('media') is not None:
                     with env.app.app_context():
                         nseg = env.models.MediaFile.get(name=rid).representation.num_media_segments
                     ents = rep['timeline']
